@@ -167,6 +167,33 @@ theorem lat_value_rejected (pre rest : List String) (acc : List Item) (v : Strin
       | ok st' => exact ih b st'
   simp [parseKeywords, groupTokens, hrun, hpre, kwRun, kwStep, hv, Except.map]
 
+/-! ### wrong number of macrobody parameters -/
+section
+variable {α : Type} [Add α] [Sub α] [Mul α] [Div α] [Neg α] [OfNat α 0] [OfNat α 1]
+  [LT α] [DecidableLT α] [BEq α] [Transc α]
+
+/-- the parameter counts each macrobody accepts -/
+def macroTable : List (String × Nat) :=
+  [("rpp", 6), ("box", 12), ("sph", 4), ("rcc", 7), ("rhp", 15), ("rhp", 9), ("wed", 12), ("trc", 8), ("rec", 12),
+   ("rec", 10), ("ell", 7)]
+
+/-- **a macrobody card is converted only with a parameter count its mnemonic allows** — whatever the values
+(`HEX` is `RHP` under another name and is renamed before) -/
+theorem macrobody_parameter_count (mn : String) (ps : List α) (h : (macroParts mn ps).isSome = true) :
+    (mn, ps.length) ∈ macroTable := by
+  unfold macroParts at h
+  split at h
+  all_goals first | (simp [macroTable]; done) | (simp at h; done)
+
+/-- … and an ARB with its thirty entries only -/
+theorem arb_parameter_count (e1 e2 : α) (toNat : α → Nat) (ps : List α) (h : (arbParts e1 e2 toNat ps).isSome = true) :
+    ps.length = 30 := by
+  unfold arbParts at h
+  by_cases hl : ps.length = 30
+  · exact hl
+  · simp [hl] at h
+end
+
 /-! ### a malformed `--lattice` argument (model `Text/LatticeArg` = `main.parse_lattice` / `parse_ranges`) -/
 
 /-- **an option is accepted only with a cell number followed by one, two or three ranges** (comma-separated fields: the
